@@ -164,8 +164,8 @@ PROPS = {
    rule="case = one server (session_pool with one of 13 encryptor configurations: hmac-{md5,sha1,sha224,sha256,sha384,sha512}, aes/aes128/aes192/aes256, split cbc+hmac keys) and a history of 3..43 operations: save(payload 0..64 KiB, age), load, clock advance (seconds..years), "
         "and attacker rewrites of the browser's cookie (single-bit flips - position enumerated across runs, truncation, extension, cipher block swaps, splices of two issued cookies, cookies issued by a server with another key or another algorithm, prefix change, random strings, replay of old cookies, non-canonical base64, empty cipher). "
         "Oracle over the history: load succeeds iff the presented cookie decodes (independent base64url decoder) to a cipher text this server issued and its deadline has not passed, and then returns exactly the data saved with it; rejected cookies are cleared from the jar, nothing throws; save-then-load is the identity; "
-        "with encrypting back-ends equal payloads give different cookies, no 16-byte block repeats, the payload does not occur in the cookie; CBC-without-MAC and 8-byte keys are refused at configuration time. Added in round 2: the authentication tag of EVERY issued cookie is recomputed with OpenSSL from the configured key material and the documented construction (hmac-X: HMAC-X(key,payload); aes*: HMAC-SHA1 under HMAC-SHA256(key,0x01)[0..20); split keys) and must match; a 'pool race' scenario lets 2..4 worker threads share a freshly created session_pool (save + load back each), run by the ASan build now and then and exclusively by the TSan build. non-trivial = history with >= 1 accepted and >= 1 rejected load; distinct = plan hash",
-   fault_keys=["attacks", "ticks", "clock_jumps"],
+        "with encrypting back-ends equal payloads give different cookies, no 16-byte block repeats, the payload does not occur in the cookie; CBC-without-MAC and 8-byte keys are refused at configuration time. Added in round 2: the authentication tag of EVERY issued cookie is recomputed with OpenSSL from the configured key material and the documented construction (hmac-X: HMAC-X(key,payload); aes*: HMAC-SHA1 under HMAC-SHA256(key,0x01)[0..20); split keys) and must match; a 'pool race' scenario lets 2..4 worker threads share a freshly created session_pool (save + load back each), run by the ASan build now and then and exclusively by the TSan build. Round 3: attack tag_guess (body kept, 2..8 tag bytes replaced by guesses); no-entropy fault (open of /dev/urandom fails with EMFILE at plan-chosen calls): the operation may fail, a cookie that is issued all the same is checked like any other (never a predictable IV). non-trivial = history with >= 1 accepted and >= 1 rejected load; distinct = plan hash",
+   fault_keys=["attacks", "ticks", "clock_jumps", "saves_refused_without_entropy", "loads_refused_without_entropy", "ops_failed_without_entropy"],
    probe_keys=["loads_accepted", "loads_rejected", "saves", "tags_recomputed_independently", "pool_race_threads", "config_refusal_checks", "repeated_cipher_block"],
    components=E5C,
    assumptions=["cryptographic strength itself is outside the reach of sampling: the structural confidentiality checks are necessary conditions only", "entropy comes from the simulated /dev/urandom (seeded)"],
